@@ -63,12 +63,51 @@ impl Prop for C11 {
         for dir in ["decrypt", "encrypt"] { for mode in ["key", "pass"] { for out in ["stdout", "file"] { v.push(case(&[("mode", format!("cli-{}", mode)), ("dir", dir.into()), ("out", out.into()), ("size", (if th { 256usize << 20 } else { 96 << 20 }).to_string()), ("seed", rng.next().to_string())])); } } }
         // the binary in a pipeline whose consumer stalls (input on standard input, output on standard output)
         for dir in ["encrypt", "decrypt"] { for mode in ["key", "pass"] { if th || (dir == "encrypt") == (mode == "key") { v.push(case(&[("mode", format!("pipe-{}", mode)), ("dir", dir.into()), ("size", (if th { 256usize << 20 } else { 96 << 20 }).to_string()), ("seed", rng.next().to_string())])); } } }
+        // the destination stops taking data in the middle of the stream (every write from some call on fails: would-block, timed out, no space …):
+        // the operation ends with the write error — it must not go on consuming input, nor keep what it cannot deliver
+        for dir in ["encrypt", "decrypt"] { for mode in ["key", "pass"] { for (i, kind) in ["wouldblock", "timedout", "nospace", "brokenpipe"].iter().enumerate() { if th || (i + (dir == "encrypt") as usize + (mode == "key") as usize) % 2 == 0 {
+            v.push(case(&[("mode", format!("stuck-{}", mode)), ("dir", dir.into()), ("kind", kind.to_string()), ("okcalls", (3 + 7 * i).to_string()), ("size", (16usize << 20).to_string()), ("seed", rng.next().to_string())])); } } } }
         // a complete valid message followed by a long tail: rejecting it must not cost memory in proportion to the tail
         for mode in ["key", "pass"] { for tail in (if th { vec![1usize, 1 << 20, 64 << 20, 512 << 20] } else { vec![1usize, 32 << 20] }) { v.push(case(&[("mode", format!("tail-{}", mode)), ("size", tail.to_string()), ("seed", rng.next().to_string())])); } }
         v
     }
     fn run(&self, c: &Case, _m: &mut Model) -> Outcome {
         let mut o = Outcome::default();
+        if get(c, "mode").starts_with("stuck-") {
+            let mut rng = Rng::new(get(c, "seed").parse().unwrap_or(0));
+            let keym = get(c, "mode") == "stuck-key"; let dec = get(c, "dir") == "decrypt"; let size = getn(c, "size"); let okcalls = getn(c, "okcalls");
+            let kind = match get(c, "kind") { "wouldblock" => std::io::ErrorKind::WouldBlock, "timedout" => std::io::ErrorKind::TimedOut, "nospace" => std::io::ErrorKind::StorageFull, _ => std::io::ErrorKind::BrokenPipe };
+            let (s, r) = (rng.bytes(32), rng.bytes(32)); let (spk, rpk) = (pub_of(&s), pub_of(&r)); let pw = b"streaming".to_vec(); let salt: [u8; 32] = rng.bytes(32).try_into().unwrap();
+            struct StuckSink { ok_calls: usize, kind: std::io::ErrorKind, pos: Rc<Cell<usize>>, pos_at_fail: Option<usize>, failed_calls: usize }
+            impl Write for StuckSink {
+                fn write(&mut self, buf: &[u8]) -> std::io::Result<usize> { if self.ok_calls > 0 { self.ok_calls -= 1; Ok(buf.len()) } else { if self.pos_at_fail.is_none() { self.pos_at_fail = Some(self.pos.get()); } self.failed_calls += 1; if self.failed_calls > 2_000 { panic!("the destination was offered data 2000 times after it had stopped taking any"); } Err(self.kind.into()) } }
+                fn flush(&mut self) -> std::io::Result<()> { Ok(()) }
+            }
+            let (pos, reads) = (Rc::new(Cell::new(0usize)), Rc::new(Cell::new(0usize)));
+            // the input: plaintext from a generator, or (decrypting) a ciphertext made beforehand and handed over as a slice
+            let file: Vec<u8> = if dec { let plain = crate::gen::payload(rng.next(), size); if keym { crate::imp::key_encrypt(&s, &spk, &rpk, None, None, &plain, &crate::imp::NOSCRIPT).out } else { crate::imp::pass_encrypt(&pw, &salt, &plain, &crate::imp::NOSCRIPT).out } } else { vec![] };
+            let mut sink = StuckSink { ok_calls: okcalls, kind, pos: pos.clone(), pos_at_fail: None, failed_calls: 0 };
+            let base = kalloc::alloc::reset();
+            let res: String = std::panic::catch_unwind(std::panic::AssertUnwindSafe(|| if dec {
+                let mut src = SliceSource { data: &file, off: 0, pos: pos.clone(), reads: reads.clone() };
+                if keym { format!("{:?}", decrypt::key_decrypt(&mut src, &mut sink, &crate::imp::sk(&r), &crate::imp::pk(&rpk), AsymFileFormat::V1).map(|_| ())) } else { format!("{:?}", decrypt::pass_decrypt(&mut src, &mut sink, &pw, PassFileFormat::V1)) }
+            } else {
+                let mut src = GenSource { left: size, state: rng.next(), reads: reads.clone(), pos: pos.clone(), maxread: usize::MAX };
+                if keym { format!("{:?}", encrypt::key_encrypt(&mut src, &mut sink, &crate::imp::sk(&s), &crate::imp::pk(&spk), &crate::imp::pk(&rpk), None, None, None, AsymFileFormat::V1)) } else { format!("{:?}", encrypt::pass_encrypt(&mut src, &mut sink, &pw, salt, PassFileFormat::V1)) }
+            })).unwrap_or_else(|_| "SPIN".to_string());
+            let peak = kalloc::alloc::peak_since(base);
+            o.validated += 1; o.nontrivial = Some(format!("{}/{}/{}", get(c, "mode"), get(c, "dir"), get(c, "kind"))); o.tags.push(format!("stuck sink {} {}", get(c, "dir"), get(c, "kind")));
+            let at = sink.pos_at_fail.unwrap_or(0); let consumed = pos.get();
+            let bound = if keym { 1 << 20 } else { 40 << 20 };
+            o.impl_obs = format!("{} | input consumed {} bytes (at the first failing write: {}), {} failing write calls, peak heap {} bytes", res.chars().take(60).collect::<String>(), consumed, at, sink.failed_calls, peak);
+            o.model_obs = "write error as soon as the write fails; at most three more chunks of input consumed; heap below the constant".into();
+            let label = format!("{} ({} mode) of {} bytes into a sink whose writes fail with {} from call {} on", get(c, "dir"), if keym { "key" } else { "password" }, size, get(c, "kind"), okcalls + 1);
+            if res == "SPIN" { o.oracle_fail = Some(("incremental-output".into(), format!("{}: the operation does not end — it offered data to the dead destination 2000 times ({} bytes of input consumed, {} at the first failing write, peak heap {} bytes)", label, consumed, at, peak))); }
+            else if res.starts_with("Ok") { o.oracle_fail = Some(("write-failure-surfaces".into(), format!("{}: reported success", label))); }
+            else if consumed > at + 3 * 65536 + 1024 { o.oracle_fail = Some(("incremental-output".into(), format!("{}: {} more bytes of input were consumed after the destination had stopped taking data (peak heap {} bytes)", label, consumed - at, peak))); }
+            else if peak > bound { o.oracle_fail = Some(("constant-memory".into(), format!("{}: {} bytes of heap at peak (bound {})", label, peak, bound))); }
+            return o;
+        }
         if get(c, "mode").starts_with("tail-") {
             let mut rng = Rng::new(get(c, "seed").parse().unwrap_or(0));
             let keym = get(c, "mode") == "tail-key"; let tail = getn(c, "size");
